@@ -305,12 +305,15 @@ def assign_ids(cases):
         c.id = "c%d" % i
 
 
-FIXTURE_FILES = ["a", "aa", "ab", "b", ".hid", "x y", "é", "st*r", "a.txt", "b.txt", "sub/in", "sub/.h2", "q"]
+FIXTURE_FILES = ["a", "aa", "ab", "b", ".hid", "x y", "é", "st*r", "a.txt", "b.txt", "sub/in", "sub/.h2", "q",
+                 # names that spell shell syntax (C13: a file name produced by filename expansion is data)
+                 "ops/g>x", "ops/h|y", "ops/i&", "ops/j;k", "ops/k#c", "ops/l<m", "ops/m`id`", "ops/n$(id)", "ops/o{1..2}", "ops/p>>q",
+                 "ops/r 2>e", "ops/s=1", "ops/t'u", 'ops/v"w', "ops/w*x", "ops/&", "ops/|", "ops/>z", "ops/<", "ops/y$HOME", "ops/~"]
 
 
 def make_fixture():
     """a directory with known entries in which the in-process harness runs (glob, completion)"""
-    d = os.path.join(WORK, "fixture")
+    d = os.path.join(WORK, "fixture2")
     if not os.path.isdir(d):
         for f in FIXTURE_FILES:
             p = os.path.join(d, f)
